@@ -643,14 +643,27 @@ pub fn watched<T>(on_expiry: Vec<String>, f: impl FnOnce() -> T) -> T {
 /// Runs `steps` on the real iterator (under the watchdog) and on the reference; returns the
 /// observation (`it <log>`; `it no-such-method <token>` when the script asks a forward-only
 /// iterator for a double-ended method) and the first difference, if any.
-pub fn run_both<'a>(prop: &str, what: &str, steps: &[Step], script: &str, real: Box<dyn Cur<'a> + 'a>, items: Vec<String>) -> (String, Option<String>) {
+///
+/// `exact_hint`: the iterator promises exact size hints (`ExactSizeIterator`), which are then part
+/// of the observation; otherwise a `size_hint` answer is printed as `h=ok` when it bounds the number
+/// of items that remain (any such answer is lawful, e.g. `(0, Some(n))` of a filtering iterator) and
+/// as `h=bad:<lo>..<hi>` when it does not.
+pub fn run_both<'a>(prop: &str, what: &str, steps: &[Step], script: &str, real: Box<dyn Cur<'a> + 'a>, items: Vec<String>, exact_hint: bool) -> (String, Option<String>) {
     let expiry = vec![format!("{} {}: script `{}` did not return within its time budget", prop, what, script)];
     let real_log = watched(expiry, || run(real, steps));
     let ref_log = run(reference(items), steps).unwrap_or_default();
     match real_log {
         Err(tok) => (format!("it no-such-method {}", tok), None),
-        Ok(log) => {
+        Ok(mut log) => {
             let diff = first_difference(steps, &log, &ref_log).map(|d| format!("{} {}: script `{}`: {}", prop, what, script, d));
+            if !exact_hint {
+                for (j, st) in steps.iter().enumerate() {
+                    if *st == Step::Hint && j < log.len() && j < ref_log.len() {
+                        let ok = first_difference(&steps[j..j + 1], &log[j..j + 1], &ref_log[j..j + 1]).is_none();
+                        log[j] = if ok { "h=ok".to_string() } else { format!("h=bad:{}", &log[j][2..]) };
+                    }
+                }
+            }
             (format!("it {}", if log.is_empty() { "-".to_string() } else { log.join(" ") }), diff)
         }
     }
@@ -665,7 +678,7 @@ mod tests {
         for s in enum_scripts(2, true, 7) {
             let steps = parse(&s).unwrap();
             let v: Vec<u32> = (0..5).collect();
-            let (obs, diff) = run_both("T", "vec", &steps, &s, double_ended(v.iter(), |x: &u32| x.to_string()), items.clone());
+            let (obs, diff) = run_both("T", "vec", &steps, &s, double_ended(v.iter(), |x: &u32| x.to_string()), items.clone(), true);
             assert!(diff.is_none(), "{} {:?} {}", s, diff, obs);
         }
         let steps = parse("n,t1,h,s1,y1,p2.9").unwrap();
